@@ -14,7 +14,8 @@ RULE = (
     "reported (get_all_rules/get_active_rules) must be a state the model allows (for a raising call: unchanged or the documented "
     "prefix effect; for duplicate names: first-match or all-match) and applied (getRules for '', p, q, unused chain) must equal the "
     "functions of the reported active rules in registration order filtered by my own record of each rule's alt. (2) Facade level: "
-    "MarkdownIt.enable/disable/configure/reset_rules/ruler.at/before/after/push histories incl. unknown names, then a non-invasive "
+    "MarkdownIt.enable/disable/configure/reset_rules/ruler.at/before/after/push histories incl. unknown names; after every step the "
+    "reported rules must equal a sequential model of the calls' set semantics (a name is switched in every chain registering it); then a non-invasive "
     "observation: a probe document on which every enabled rule of every chain must be attempted is parsed under sys.monitoring "
     "PY_START and the first-call order of rule code objects per chain must equal get_active_rules(). Non-trivial = history with "
     ">=1 mutator after a cache-warming getRules/parse; distinct by the operation sequence."
